@@ -14,8 +14,10 @@ def make_units(prop, modules, tier):
         units.append(Unit('K6/%s' % common.class_key(c), e2.clause_unit(c, ('K6', 'K3')), replay=replay_for(c), clause='K6+K3',
                           functions=['%s.compose' % c.__name__, '%s._parse' % c.__name__, 'spec.%s' % c.__name__]))
     # classes whose round trip K3 is a listed known finding over the whole class: K6 alone (compose against the specification)
+    c01_skipped = lambda c: 'C01' in common.load_class_table().get(common.class_key(c), {}).get('skip', {})
     for c in common.select_classes(e1.binary_classes(), tier, prop):
-        if c.__module__.startswith(tuple(modules)) and c.__name__ in regions.whole_class_regions() and e2.has_spec(c):
+        # (also for classes whose round-trip exploration is outside the budget: their compose() alone is cheap)
+        if c.__module__.startswith(tuple(modules)) and (c.__name__ in regions.whole_class_regions() or (prop == 'C09' and c01_skipped(c))) and e2.has_spec(c):
             units.append(Unit('K6-compose-only/%s' % common.class_key(c), e2.compose_only_unit(c), replay=replay_for(c), clause='K6',
                               functions=['%s.compose' % c.__name__, 'spec.%s' % c.__name__]))
     uncovered = ['no specification function written yet (K6 not stated; K3 is covered by C01): ' +
